@@ -73,6 +73,25 @@ def _unpack_nonzero(f, d):
     return out
 
 
+def _rowcol(e, inner_ok):
+    """<stack of X.nonzero() as rows>.T : (row, column) pairs; accepts vstack / stack(axis=0) / array / column_stack without .T"""
+    t = False
+    if isinstance(e, ast.Attribute) and e.attr == "T":
+        e, t = e.value, True
+    if not isinstance(e, ast.Call) or not e.args:
+        return False
+    fn_ = (dotted(e.func) or "").split(".")[-1]
+    arg = e.args[0]
+    if not (isinstance(arg, ast.Call) and isinstance(arg.func, ast.Attribute) and arg.func.attr == "nonzero" and str(norm(arg.func.value)) in inner_ok):
+        return False
+    ax = kwarg(e, "axis")
+    if fn_ in ("vstack", "array", "asarray") or (fn_ == "stack" and (ax is None or const_value(ax) == 0)):
+        return t
+    if fn_ in ("column_stack",) or (fn_ == "stack" and const_value(ax) in (1, -1)):
+        return not t
+    return False
+
+
 def rule_r1(p, res):
     r = res.rule("C14.R1", "from = row, to = column at every adjacency site")
     conv = p.func(G + "_convert_edges_to_adjacency_matrix")
@@ -117,7 +136,7 @@ def rule_r1(p, res):
     de = p.own_method("DirectedGraph", "edges")
     r.instance(de)
     rets = returns_of(de.node)
-    r.check(len(rets) == 1 and norm(rets[0].value) == "np.vstack(self.adjacency_matrix.nonzero()).T", de, de.node, "directed edges must be listed as (row, column) = (from, to)")
+    r.check(len(rets) == 1 and _rowcol(rets[0].value, ("self.adjacency_matrix",)), de, de.node, "directed edges must be listed as (row, column) = (from, to)")
     # predecessors
     pl = p.own_method("Tree", "_get_predecessors_list")
     r.instance(pl)
@@ -183,7 +202,7 @@ def rule_r2(p, res):
     ue = p.own_method("UndirectedGraph", "edges")
     r.instance(ue)
     rets = returns_of(ue.node)
-    r.check(len(rets) == 1 and norm(rets[0].value) in ("np.vstack(triu(self.adjacency_matrix).nonzero()).T", "np.vstack(tril(self.adjacency_matrix).nonzero()).T"), ue, ue.node,
+    r.check(len(rets) == 1 and _rowcol(rets[0].value, ("triu(self.adjacency_matrix)", "tril(self.adjacency_matrix)")), ue, ue.node,
             "undirected edges must be read from one triangle of the symmetric matrix (each edge once)")
     for cname, conv in (("UndirectedGraph", "_convert_edges_to_symmetric_adjacency_matrix"), ("PointUndirectedGraph", "_convert_edges_to_symmetric_adjacency_matrix"),
                         ("Graph", "_convert_edges_to_adjacency_matrix"), ("PointGraph", "_convert_edges_to_adjacency_matrix"),
